@@ -606,6 +606,28 @@ class Normaliser:
                     body = body[:ob + 1] + ' ' + t + body[ob + 1:]
                 else:
                     body = body[:cb] + t + ' ' + body[cb:]
+            elif kind == 'fn-tail':
+                # just before the function's tail expression: after the last `;` or `}` at statement level of the body
+                ob0 = body.index('{')
+                cb0 = sc.match[ob0]
+                j = None
+                i2 = cb0 - 1
+                while i2 > ob0:
+                    if sc.code[i2]:
+                        ch = body[i2]
+                        if ch in ')]}' and i2 in sc.match and sc.depth[sc.match[i2]] >= sc.depth[ob0] + 1:
+                            if ch == '}' and sc.depth[sc.match[i2]] == sc.depth[ob0] + 1 and body[i2 + 1:cb0].strip():
+                                j = i2 + 1
+                                break
+                            i2 = sc.match[i2] - 1
+                            continue
+                        if ch == ';' and sc.depth[i2] == sc.depth[ob0] + 1:
+                            j = i2 + 1
+                            break
+                    i2 -= 1
+                if j is None:
+                    raise AnchorLost('ghost splice: fn-tail: no statement before the tail expression')
+                body = body[:j] + ' ' + t + body[j:]
             elif kind == 'bare-loop':
                 # invariant text for the k-th `loop { .. }` (inserted between the keyword and the opening brace)
                 k = int(arg.split()[0])
